@@ -98,6 +98,9 @@ pub fn field_alphabet(seed: u64, randoms: usize, limbs: bool) -> Vec<BigUint> {
             v.push(pow2(64 * j) + big(1));
         }
     }
+    if limbs {
+        v.extend(limb_patterns(seed));
+    }
     let mut r = SplitMix(seed ^ 0x5bd1e995);
     for _ in 0..randoms {
         v.push(r.field());
